@@ -11,9 +11,18 @@ from . import lib
 DOMAIN = 'sampled struct family x random histories (<= 12 operations) of assignment, optional set/clear, array ops, copy_from'
 
 
+def _plain(x):
+    if isinstance(x, int) and type(x) not in (int, bool):
+        return int(x)
+    if isinstance(x, list):
+        return [_plain(y) for y in x]
+    return x
+
+
 def model_apply(t, v, op):
     """reference model: returns (new value, accepted?)"""
     kind = op[0]
+    op = tuple(_plain(x) for x in op)          # the model holds numbers, whatever object carried them
     v = copy.deepcopy(v)
     f = op[1]
     ty = [x.ty for x in t.fields if x.name == f][0]
@@ -94,12 +103,16 @@ def real_apply(msg, op):
         del getattr(msg, f)[op[2]]
 
 
+# values carried by objects of another type: enumerators of a foreign enum (int subclass instances), numbers in / out of range
+CARRIERS = []
+
+
 def gen_op(t, v, rng):
     fs = [x for x in t.fields if not x.sizer_of]
     fld = rng.choice(fs)
     ty = fld.ty
     base = ty.base if isinstance(ty, W.Optional) else ty
-    junk = rng.choice([None, 'x', 1.5, -1, 1 << 70, b'zz', [1], True])
+    junk = rng.choice([None, 'x', 1.5, -1, 1 << 70, b'zz', [1], True] + CARRIERS)
     if isinstance(ty, W.Array) and not isinstance(ty.elem, (W.Struct, W.Union)):
         good = lambda: F.gen_value(ty.elem, rng)
         val = lambda: good() if rng.random() < 0.8 else junk
@@ -147,6 +160,10 @@ def lazify(t, v, rng):
 def run(prop, seed, tier):
     import prophy
     rng = F.rng_for(seed, 'py_api/' + prop)
+    if not CARRIERS:
+        class Foreign(prophy.with_metaclass(prophy.enum_generator, prophy.enum)):
+            _enumerators = [('FOREIGN_A', 77), ('FOREIGN_B', 1), ('FOREIGN_C', 0x7FFFFFFF)]
+        CARRIERS.extend([Foreign._check(n) for n in ('FOREIGN_A', 'FOREIGN_B', 'FOREIGN_C')])
     count = 80 if tier == 'quick' else 800
     structs = F.sample_structs(rng, count, 4)
     failures, cases = [], 0
